@@ -198,6 +198,7 @@ def dumpInto (o : GObj) (buf : Bytes) : Outcome (Int × Bytes) :=
 inductive GEdit
   | tag (op : TagOp)
   | detail (data : Bytes)
+  | freeDetail
   deriving Repr
 
 /-- one edit call on an object: (return value, object) -/
@@ -215,5 +216,8 @@ def GObj.edit (o : GObj) : GEdit → Outcome (Int × GObj)
       let buf := (o.detail.take o.detailLen) ++ d
       let nl := (o.detailLen + d.length) % 256
       .ok (nl, { o with detail := buf, detailLen := nl })
+  | .freeDetail =>
+    -- libwifi_free_action_detail: the details are gone and the object is as freshly created
+    .ok (0, { o with detail := [], detailLen := 0 })
 
 end LWV.Model
